@@ -83,3 +83,18 @@ pub fn violation(prop: &str, key: &str, detail: &str) -> ! {
     eprintln!("FUZZ-VIOLATION property={} key={} :: {}", prop, key, detail);
     std::process::abort();
 }
+
+// ---------------------------------------------------------------------------------------
+// fz_hist: coverage-guided search over operation histories; the bytes are decoded by
+// fuzzdec.rs (fixed-size records, one per operation) under the op weights of the property.
+
+/// Which oracle set the target applies (environment variable VERIF_FZ_PROP, default C02).
+pub fn hist_prop() -> String {
+    std::env::var("VERIF_FZ_PROP").unwrap_or_else(|_| "C02".to_string())
+}
+
+/// Decodes fuzz bytes into a history for `prop`.
+pub fn hist_case(prop: &str, data: &[u8]) -> Option<crate::ops::Case> {
+    let (profile, foreign) = crate::props::hist::fuzz_profile(prop);
+    crate::fuzzdec::case(data, &profile, foreign)
+}
